@@ -210,6 +210,10 @@ def power_profiles(rng, nz, z, kind=None):
     pw = rng.uniform(0.1, 0.4)
     zr = z / z[-1]
     absu = sp * (0.2 + zr) ** pw
+    if rng.random() < 0.5:
+        # the wind turns with height (Ekman-like veering): u(z) and v(z) are not proportional.  No closure of pbl_model
+        # produces this, user-supplied profiles do; the solver's horizontal operator takes u_i and v_i separately
+        wd = wd + rng.uniform(-1.2, 1.2) * zr
     u = absu * np.cos(wd)
     v = absu * np.sin(wd)
     kk = rng.uniform(0.2, 2.0)
